@@ -52,8 +52,14 @@ func init() {
 		registerDomain(f, []string{"T", "Int", idxSort}, "Real", `(assert (forall ((t T) (d Int) (J (Array Int Int)) (K (Array Int Int))) (! (=> (forall ((k Int)) (=> (and (<= 0 k) (< k (- (rank t) 1))) (= (select J k) (select K k)))) (= (`+f+` t d J) (`+f+` t d K))) :pattern ((`+f+` t d J) (`+f+` t d K)))))`, "rank")
 	}
 	registerDomain("tsum", []string{"T"}, "Real", "")
+	// fibre(t, d, J): the one-dimensional fibre of t along d at the position selected by J (a ghost tensor);
+	// the fibre statistics are the whole-tensor statistics of the fibre - this is their definition
+	registerDomain("fibre", []string{"T", "Int", idxSort}, "T", `(assert (forall ((t T) (d Int) (J (Array Int Int))) (! (and (= (fsum t d J) (tsum (fibre t d J))) (= (fmax t d J) (tmax (fibre t d J))) (= (fmin t d J) (tmin (fibre t d J))) (= (fvar t d J) (tvar (fibre t d J))) (= (nelems (fibre t d J)) (dim t d))) :pattern ((fibre t d J)))))`, "fsum", "fmax", "fmin", "fvar", "tsum", "tmax", "tmin", "tvar", "nelems", "dim")
 	registerDomain("dotsum", []string{"T", "T", idxSort}, "Real", "")
 	registerDomain("mmsum", []string{"T", "T", idxSort}, "Real", "")
+	// sums of products over same-shape operands (after broadcasting)
+	registerDomain("dsum", []string{"T", "T", idxSort}, "Real", "")
+	registerDomain("msum", []string{"T", "T", idxSort}, "Real", "")
 
 	// ghost: source / target tensor of a back-edge closure
 	registerDomain("srcOf", []string{"Fn"}, "T", "")
